@@ -199,7 +199,7 @@ def gen_c10(seed, size="quick"):
     dom = r.choice([8, 15, 30])
     edb(t, r, r.choice([20, 60, 150]) if size == "quick" else r.choice([60, 150, 300]), dom)
     t.meta["choice"] = []
-    kinds = r.sample(["single", "two", "composite", "tree", "recursive_pick", "agg", "agg2", "idx", "idx2", "exists", "nonprefix", "arith", "withfacts", "rec3"],
+    kinds = r.sample(["single", "two", "composite", "tree", "recursive_pick", "agg", "agg2", "idx", "idx2", "exists", "nonprefix", "arith", "withfacts", "rec3", "tree_helper", "pingpong"],
                      r.randrange(1, 4))
     for kind in kinds:
         if kind == "nonprefix":
@@ -224,6 +224,26 @@ def gen_c10(seed, size="quick"):
             t.rules.append({"head": ("pickf", [V("x"), V("y")]), "body": [("atom", "e1", [V("x"), V("y")])]})
             t.meta["choice"].append({"rel": "pickf", "keys": [[0], [1]]})
             t.outputs.append("pickf")
+        elif kind == "tree_helper":
+            # spanning forest whose choice rule is recursive only through a helper relation of the same SCC
+            t.decls.append(".decl parenth(v:number,p:number) choice-domain v")
+            t.decls.append(".decl reached(v:number)")
+            t.rules.append({"head": ("reached", [V("x")]), "body": [("atom", "n1", [V("x")]), ("cmp", "<", V("x"), C(3))]})
+            t.rules.append({"head": ("reached", [V("v")]), "body": [("atom", "parenth", [V("v"), U])]})
+            t.rules.append({"head": ("parenth", [V("v"), V("u")]), "body": [("atom", "reached", [V("u")]), ("atom", "e1", [V("u"), V("v")])]})
+            t.meta["choice"].append({"rel": "parenth", "keys": [[0]]})
+            t.meta.setdefault("downstream", []).append("reached")
+            t.outputs += ["parenth", "reached"]
+        elif kind == "pingpong":
+            # two choice relations in one SCC, each recursive only through the other
+            t.decls.append(".decl ping(x:number,y:number) choice-domain y")
+            t.decls.append(".decl pong(x:number,y:number) choice-domain y")
+            t.rules.append({"head": ("ping", [V("x"), V("y")]), "body": [("atom", "e1", [V("x"), V("y")]), ("cmp", "<", V("x"), C(2))]})
+            t.rules.append({"head": ("pong", [V("y"), V("z")]), "body": [("atom", "ping", [U, V("y")]), ("atom", "e1", [V("y"), V("z")])]})
+            t.rules.append({"head": ("ping", [V("y"), V("z")]), "body": [("atom", "pong", [U, V("y")]), ("atom", "e1", [V("y"), V("z")])]})
+            t.meta["choice"].append({"rel": "ping", "keys": [[1]]})
+            t.meta["choice"].append({"rel": "pong", "keys": [[1]]})
+            t.outputs += ["ping", "pong"]
         elif kind == "rec3":
             # recursive choice rule with a composite key and a second key, key columns not first
             t.decls.append(".decl hop(d:number,x:number,y:number) choice-domain (d,x), y")
